@@ -24,6 +24,9 @@ Inductive kind :=
 | KUpdateExpr | KMergeWhen | KMergeAction | KSetClause
 | KIdent | KLit | KBinary | KUnary | KFunc | KCase | KWhen | KIn | KBetween
 | KExists | KSubquery | KCast | KList | KAliased
+| KCreateView | KCreateMView | KCreateIndex | KIndexCol   (* statements that CARRY a query / an expression without being queries *)
+| KCreateTable | KColumnDef | KColConstraint | KTabConstraint
+| KDescribe                                                (* EXPLAIN / DESCRIBE of a query *)
 | KShared
 | KOpaque (ty : N).
 
@@ -35,18 +38,20 @@ Inductive slot :=
 | STarget | SSource | SWhens | SAction | SSets                                 (* Merge *)
 | SColumn | SValue                                                             (* UpdateExpression / SetClause *)
 | SExpr | SArgs | SList | SLower | SUpper | SResult | SElse                     (* expressions *)
+| SConstraints | SDefault | SCheck                                             (* CreateTableStatement / ColumnDef / constraints *)
 | SF (f : N).                                                                  (* any other node-holding field (C14 field id) *)
 
 (* string attributes; unused ones are "" *)
 Record attrs := mkA {
-  a_name : string;   (* Identifier.Name, FunctionCall.Name, TableReference.Name, X.TableName, CommonTableExpr.Name, SetClause.Column *)
-  a_qual : string;   (* Identifier.Table *)
+  a_name : string;   (* Identifier.Name, FunctionCall.Name, TableReference.Name, X.TableName, CommonTableExpr.Name, SetClause.Column,
+                        CreateView/MaterializedView/Index/TableStatement.Name, IndexColumn.Column, ColumnDef.Name *)
+  a_qual : string;   (* Identifier.Table, CreateIndexStatement.Table *)
   a_op   : string;   (* BinaryExpression.Operator, SetOperation.Operator, UnaryExpression.Operator, JoinClause.Type,
                         MergeWhenClause.Type, MergeAction.ActionType *)
   a_val  : string;   (* LiteralValue.Value rendered with %v *)
   a_typ  : string;   (* LiteralValue.Type, CastExpression.Type *)
   a_alias : string;  (* TableReference.Alias, AliasedExpression.Alias, Update/Delete.Alias *)
-  a_list : list string (* MergeAction.Columns, CommonTableExpr.Columns *)
+  a_list : list string (* MergeAction.Columns, CommonTableExpr.Columns, CreateView/MaterializedViewStatement.Columns *)
 }.
 Definition noA := mkA "" "" "" "" "" "" [].
 (* shorthands *)
@@ -67,7 +72,10 @@ Definition kind_eqb (a b : kind) : bool :=
   | KUpdateExpr, KUpdateExpr | KMergeWhen, KMergeWhen | KMergeAction, KMergeAction | KSetClause, KSetClause
   | KIdent, KIdent | KLit, KLit | KBinary, KBinary | KUnary, KUnary | KFunc, KFunc | KCase, KCase | KWhen, KWhen
   | KIn, KIn | KBetween, KBetween | KExists, KExists | KSubquery, KSubquery | KCast, KCast | KList, KList
-  | KAliased, KAliased | KShared, KShared => true
+  | KAliased, KAliased | KShared, KShared
+  | KCreateView, KCreateView | KCreateMView, KCreateMView | KCreateIndex, KCreateIndex | KIndexCol, KIndexCol
+  | KCreateTable, KCreateTable | KColumnDef, KColumnDef | KColConstraint, KColConstraint
+  | KTabConstraint, KTabConstraint | KDescribe, KDescribe => true
   | KOpaque x, KOpaque y => x =? y
   | _, _ => false
   end.
@@ -79,7 +87,8 @@ Definition slot_eqb (a b : slot) : bool :=
   | SStmt, SStmt | SSubquery, SSubquery | SValues, SValues | SQuery, SQuery | SAssign, SAssign | SUsing, SUsing
   | STarget, STarget | SSource, SSource | SWhens, SWhens | SAction, SAction | SSets, SSets
   | SColumn, SColumn | SValue, SValue | SExpr, SExpr | SArgs, SArgs | SList, SList | SLower, SLower
-  | SUpper, SUpper | SResult, SResult | SElse, SElse => true
+  | SUpper, SUpper | SResult, SResult | SElse, SElse
+  | SConstraints, SConstraints | SDefault, SDefault | SCheck, SCheck => true
   | SF x, SF y => x =? y
   | _, _ => false
   end.
